@@ -298,6 +298,11 @@ func postProcess(eng *Engine, nr *NativeRunner, runs []*HarnessRun) (int, []stri
 			h := h
 			jobs = append(jobs, func() {
 				ok, msg := nr.validate(w.witness)
+				for try := 0; !ok && try < 2; try++ {
+					// a mismatch must be deterministic to count: the native twin waits for quiescence by polling the
+					// goroutine states, which a heavily loaded machine can make misjudge once; an encoder bug shows every time
+					ok, msg = nr.validate(w.witness)
+				}
 				mu.Lock()
 				defer mu.Unlock()
 				if ok {
